@@ -975,7 +975,8 @@ def gen_all(ctx):
         bad = rng.random() < 0.5
         fam["key"].append({"family": "key", "key": gen_key(rng, 0 if bad else 1, 4, PARTS_OK + (PARTS_BAD if bad else []))})
     for form in ("json", "db"):
-        for _ in range(ctx.n(45, 400)):
+        # the diskcache form costs ~35 ms per case (much more under disk contention): fewer of them in quick
+        for _ in range(ctx.n(45 if form == "json" else 30, 400)):
             fam[form].append({"family": form, "form": form, "entries": gen_index(rng, ints=INTS + BIG_INTS)})
         for _ in range(ctx.n(15, 150)):
             fam[form].append({"family": form, "form": form, "malformed": True,
@@ -998,10 +999,10 @@ def gen_all(ctx):
         ops.append(["commit"])
         fam["sqlite"].append({"family": "sqlite", "ops": ops})
     # two or more writes to one key within one session (aliasing with the identity cache)
-    for _ in range(ctx.n(30, 300)):
+    for _ in range(ctx.n(30, 200)):
         fam["sqlite"].append({"family": "sqlite", "ops": gen_alias_history(rng)})
     # the public path: unloaded directory entries filled by DataIndex._load from an object storage
-    for _ in range(ctx.n(10, 100)):
+    for _ in range(ctx.n(10, 60)):
         fam["sqlite"].append(gen_load_case(rng))
     for _ in range(ctx.n(60, 500)):
         hn = rng.choice(["md5", "md5-dos2unix"])
